@@ -287,6 +287,14 @@ static int _vds_shared_init(vorbis_dsp_state *v,vorbis_info *vi,int encp){
       ci->book_param[i]=NULL;
     }
   }
+  /* the decode codebooks are incomplete; drop them, or a second init
+     on this info would find them in place and run with empty books */
+  if(ci->fullbooks){
+    for(i=0;i<ci->books;i++)
+      vorbis_book_clear(ci->fullbooks+i);
+    _ogg_free(ci->fullbooks);
+    ci->fullbooks=NULL;
+  }
   vorbis_dsp_clear(v);
   return -1;
 }
